@@ -1741,6 +1741,10 @@ class HasRounds(GenericHandler):
         assert isinstance(vary_rounds, int)
         lower = linear_to_native(default_rounds - vary_rounds, False)
         upper = linear_to_native(default_rounds + vary_rounds, True)
+        # keep the range inside the handler's hard limits (desired limits may be unset)
+        lower = max(lower, cls.min_rounds)
+        if cls.max_rounds:
+            upper = min(upper, cls.max_rounds)
         return cls._clip_to_desired_rounds(lower), cls._clip_to_desired_rounds(upper)
 
     def __init__(self, rounds=None, **kwds):
